@@ -152,6 +152,8 @@ func init() {
 				Bound: "all edge lists with <=5 edges (connected and disconnected) x {greedy,dfs} x thoroughness {28,1,0}"},
 			{Name: "D(6,<=8)", Space: spaceD(6, 5, tierPick(tier, 8, 8), true), Eval: stdEval("C10", staticGrid(gd), or),
 				Bound: "every multiset of 5..8 edges over the 15 pairs u<v of 6 nodes, in lexicographic and reverse order (the space where the simplex pivots)"},
+			{Name: "D(6,9)-lex", Space: spaceD(6, 9, 9, false), Eval: stdEval("C10", staticGrid(gd), or),
+				Bound: "every multiset of 9 edges over the 15 pairs of 6 nodes, lexicographic order (where the stale-cut-value defect first showed)"},
 			{Name: "G6n4", Space: spaceG(6, 6, 4, nil), Eval: stdEval("C10", staticGrid(gridSpec{P1: allP1, P2: []int{0}, P4: []int{1}, P5: []int{0}, SZ: []int{1}, TH: []int{28}}.list()), or),
 				Bound: "all edge lists with 6 edges on <=4 nodes (dense, cyclic multigraphs) x {greedy,dfs}"},
 			{Name: "seeds", Space: spaceSeeded(seedWitnesses, tierPick(tier, 1, 2)), Eval: stdEval("C10", staticGrid(g), or),
